@@ -4,8 +4,9 @@ package main
 // as value trees of random schemas, shredded by an independent implementation
 // of the Dremel algorithm, written through the Row API with random options and
 // Write/Flush histories, and read back through several readers.  Typed
-// round trips (parquet.Write / parquet.Read on compiled struct types) cover
-// the Go-value mapping.  The model side: Dremel shred == the rows handed to
+// round trips (typed.go: struct families filled by reflection, several typed
+// write and read paths) cover the Go-value mapping, the logical types reached
+// through struct tags and the bulk (one call, many values) column paths.  The model side: Dremel shred == the rows handed to
 // the writer, and assembling the read-back column streams returns the values.
 
 import (
@@ -283,7 +284,7 @@ type tInner struct {
 }
 
 func run(c *core.Ctx) {
-	c.Res.Rule = "random schemas (required/optional/repeated leaves of every physical type and several logical types, groups, LIST groups, depth <= 3) x value trees with boundary values (min/max ints, NaN payloads, -0, infinities, empty and long byte strings, null runs, empty and long lists) shredded by an independent Dremel implementation x writer options (page version, page buffer size, max rows per row group, codec per file and per column, encodings per column, dictionary limit, statistics, write buffer, bloom filters, index size limit) x Write/Flush histories; each file is read back through RowGroup.Rows, parquet.Reader and ColumnChunk.Pages and must equal the written rows value-for-value and level-for-level; plus typed round trips on compiled struct types. Non-trivial = at least 2 rows accepted by the writer; distinct by the JSON of the case."
+	c.Res.Rule = "random schemas (required/optional/repeated leaves of every physical type and several logical types, groups, LIST groups, depth <= 3) x value trees with boundary values (min/max ints, NaN payloads, -0, infinities, empty and long byte strings, null runs, empty and long lists) shredded by an independent Dremel implementation x writer options (page version, page buffer size, max rows per row group, codec per file and per column, encodings per column, dictionary limit, statistics, write buffer, bloom filters, index size limit) x Write/Flush histories; each file is read back through RowGroup.Rows, parquet.Reader and ColumnChunk.Pages and must equal the written rows value-for-value and level-for-level; plus typed round trips generated by reflection over compiled struct families (every kind of dictionary-encoded column as required, optional and repeated field with lists of up to 5000 (thorough: 20000) elements handed over in one call; logical types through struct tags: int(n)/uint(n), decimal on int32/int64/fixed arrays, date, time, timestamp of every unit on integers, time.Time and time.Duration, uuid, enum, json, string/bytes, at the extremes of their ranges) x value pools of 2..2^30 distinct values per column x write path (one GenericWriter.Write call, small calls, GenericBuffer+WriteRowGroup, Write(any)) x read path (parquet.Read, GenericReader batches, Reader.Read(any)) x read type (the written struct type, or one with the same tags and wider Go integer types) x page version, page size, codec, dictionary limit, rows per row group; compared leaf by leaf (floats by bits, time.Time as instants, nil = empty slice). Non-trivial = at least 2 rows accepted by the writer; distinct by the JSON of the case."
 	n := c.N(350, 6000)
 	for i := 0; i < n; i++ {
 		cs := gen.Case{Seed: c.Seed*1000003 + int64(i), NRows: []int{0, 1, 5, 40, 130, 300, 700}[c.Rng.Intn(7)], MaxDepth: 1 + c.Rng.Intn(3), MaxFields: 1 + c.Rng.Intn(5), Codecs: allCodecs, NullBias: c.Rng.Intn(8)}
